@@ -93,6 +93,11 @@ def main():
           f"{(caught[0]['violations'][0] if caught else '')}")
     print(json.dumps(res, indent=1)[:3000])
     # record what was run and what came out next to the seeded change
+    if 'tests_rc' in res:
+        # the last run of the named test modules on the patched tree is kept, also when later evaluations skip the tests
+        meta['tests_verification'] = {'modules': res.get('tests_mods', []), 'exit': res['tests_rc'],
+                                      'tail': (res.get('tests_tail') or '').strip().split('\n')[-1][:160],
+                                      'repo_head': sh(['git', '-C', '/repo', 'rev-parse', '--short', 'HEAD']).stdout.strip()}
     meta['verification'] = {
         'ran': [f'demo.py on /repo (exit {rc_clean})', f"demo.py on scratch worktree of /repo HEAD + patch (exit {res.get('demo_patched')})"]
                + ([f"pytest {' '.join(res.get('tests_mods', []))} on the patched tree (exit {res.get('tests_rc')})"] if 'tests_rc' in res else [])
